@@ -10,6 +10,7 @@ from hypothesis import strategies as st
 
 from tracklib.algo.segmentation import (MODE_SEGMENTATION_MAXIMIZE, MODE_SEGMENTATION_MINIMIZE,
                                         findStopsGlobal, optimalPartition, optimalSegmentation)
+import tracklib.algo.simplification as simplification
 from tracklib.algo.simplification import MODE_SIMPLIFY_FREE, MODE_SIMPLIFY_FREE_MAXIMIZE, simplify
 
 from vt import gen
@@ -27,6 +28,10 @@ ASSUMPTIONS = [
     "cocircular / right-angle configurations, where tracklib's randomised minCircle is outside this property), "
     "thresholds never within 1e-6 of a measured diameter or equal to a measured duration",
     "enumeration oracle: all 2^(N-2) lists, N <= 12",
+    "simplify_builtin: the per-segment criterion of simplify modes 4/5/6 is evaluated by tracklib's own (private) cost "
+    "functions with the tolerance as their offset; only the optimisation is judged (1e-9 relative); tracks in general position (no repeated position, no three fixes "
+    "collinear: tracklib's Jarvis-march convex hull does not terminate on collinear sets, which is outside C12)",
+    "partition: the same matrix object may be passed again (other direction): every answer is judged against the matrix as first handed over",
 ]
 
 MIN, MAX = MODE_SEGMENTATION_MINIMIZE, MODE_SEGMENTATION_MAXIMIZE
@@ -131,6 +136,17 @@ def body_partition(case):
     L = optimalPartition(C, case["mode"], verbose=bool(case.get("verbose", False)))
     info = judge("optimalPartition", L, W, N, case["mode"], exact)
     info["cls"].append("integer-valued" if exact else "float-valued")
+    # further calls with the SAME matrix object (a user minimises, then maximises, the criterion they built):
+    # each answer is judged against the matrix as it was handed over the first time
+    for k, mode in enumerate(case.get("again", [])):
+        L = optimalPartition(C, mode, verbose=False)
+        try:
+            judge("optimalPartition", L, W, N, mode, exact)
+        except Violation as v:
+            raise Violation("repeat-call-" + v.key, "call %d on the same matrix object (modes so far %s): %s"
+                            % (k + 2, [case["mode"]] + case["again"][:k + 1], v.msg))
+    if case.get("again"):
+        info["cls"].append("same-matrix-called-%d-times" % (1 + len(case["again"])))
     return info
 
 
@@ -170,6 +186,8 @@ def _partition_case(draw):
     c["diag"] = draw(val)
     c["int_dtype"] = draw(st.booleans())
     c["verbose"] = draw(st.sampled_from([False, False, False, True]))
+    if draw(st.integers(0, 2)) == 0:
+        c["again"] = draw(st.lists(st.sampled_from([MIN, MAX]), min_size=1, max_size=3))
     return c
 
 
@@ -212,7 +230,7 @@ def body_segmentation(case):
 @st.composite
 def _segmentation_case(draw):
     c = draw(_matrix_case(2, 10))
-    c["glob"] = draw(st.sampled_from([None, None, 0.5, 7]))
+    c["glob"] = draw(st.sampled_from([None, None, 0.5, 7, 0, 0.0]))
     c["verbose"] = draw(st.sampled_from([False, False, False, True]))
     return c
 
@@ -247,6 +265,79 @@ def _simplify_case(draw):
     c = draw(_matrix_case(2, 10))
     c["verbose"] = draw(st.sampled_from([None, False, True]))
     return c
+
+
+# --- (3b) simplify with the built-in criteria (modes 4, 5, 6): minimise the documented per-segment cost ---------
+BUILTIN = {
+    simplification.MODE_SIMPLIFY_MINIMIZE_LARGEST_DEVIATION: "__cost_largest_deviation",
+    simplification.MODE_SIMPLIFY_MINIMIZE_ELONGATION_RATIO: "__cost_mbr_ratio",
+    simplification.MODE_SIMPLIFY_PRECLUDE_LARGE_DEVIATION: "__cost_largest_deviation_strict",
+}
+
+
+def body_simplify_builtin(case):
+    """The criterion (width / elongation of the minimum bounding rectangle of the skipped fixes + the tolerance as a
+    per-segment penalty) is evaluated with tracklib's own cost function - the bounding rectangle is not what C12 is
+    about - and the OPTIMISATION over all 2^(N-2) index lists is done here by enumeration."""
+    pts = [tuple(p) for p in case["pts"]]
+    n = len(pts)
+    N = n - 1                                  # break candidates 0..N-1 (the convention of optimalSegmentation)
+    if N < 2:
+        return {"undef": True}
+    if any((pts[b][0] - pts[a][0]) * (pts[c][1] - pts[a][1]) == (pts[b][1] - pts[a][1]) * (pts[c][0] - pts[a][0])
+           for a in range(n) for b in range(a + 1, n) for c in range(b + 1, n)):
+        return {"undef": True, "cls": ["undef-collinear-triple"]}
+    track = gen.make_track(pts)
+    rec = gen.track_records(track)
+    costfn = getattr(simplification, BUILTIN[case["smode"]])
+    tol = case["tol"]
+    ref = gen.make_track(pts)
+    W = [[0.0] * N for _ in range(N)]
+    for i in range(N):
+        for j in range(i + 1, N):
+            W[i][j] = W[j][i] = float(costfn(ref, i, j - 1, tol))
+    if any(not math.isfinite(W[i][j]) for i in range(N) for j in range(N)):
+        return {"undef": True, "cls": ["undef-non-finite-cost"]}
+    out = simplify(track, tol, case["smode"], False)
+    by_time = {r[3]: k for k, r in enumerate(rec)}
+    L = []
+    for r in gen.track_records(out):
+        k = by_time.get(r[3])
+        if k is None or rec[k][:3] != r[:3]:
+            raise Violation("simplified-not-a-subset", "simplified track holds %r, not a fix of the input" % (r,))
+        L.append(k)
+    info = judge("simplify(mode %d, tolerance %r)" % (case["smode"], tol), L, W, N, MIN, False)
+    info["cls"] += ["smode-%d" % case["smode"], "tol=0" if tol == 0 else "tol>0"]
+    if gen.track_records(track) != rec:
+        raise Violation("simplify-modifies-input", "input track changed by simplify(mode %d)" % case["smode"])
+    return info
+
+
+@st.composite
+def _simplify_builtin_case(draw):
+    n = draw(st.integers(3, 9))
+    # strictly increasing x: no repeated position, so every bounding rectangle has a positive length
+    xs, x = [], 0.0
+    for _ in range(n):
+        x += draw(st.sampled_from([0.5, 1.0, 1.0, 2.0, 3.5]))
+        xs.append(x)
+    # no three fixes collinear (exact test on half-integers): tracklib's convex hull (Jarvis march) does not terminate on
+    # collinear point sets - a defect of the bounding-shape code, outside what C12 states - so they are not generated
+    cand = [k / 2.0 for k in range(-24, 25)]
+    ys = []
+    for k in range(n):
+        start = draw(st.integers(0, len(cand) - 1))
+        for off in range(len(cand)):
+            y = cand[(start + off) % len(cand)]
+            if all((xs[b] - xs[a]) * (y - ys[a]) != (ys[b] - ys[a]) * (xs[k] - xs[a])
+                   for a in range(k) for b in range(a + 1, k)):
+                ys.append(y)
+                break
+        else:
+            raise AssertionError("no admissible ordinate")
+    smode = draw(st.sampled_from(sorted(BUILTIN)))
+    tol = draw(st.sampled_from([0, 0.0, 0.1, 0.5, 1.0, 1, 2.0, 5.0]))
+    return {"pts": [[a, b] for a, b in zip(xs, ys)], "smode": smode, "tol": tol}
 
 
 # --- (4) findStopsGlobal ------------------------------------------------------------------------------
@@ -408,6 +499,9 @@ SUBCHECKS = [
              rule="optimalSegmentation with table-backed cost, both directions"),
     SubCheck("simplify", body_simplify, strategy=_simplify_case, quick=2000, thorough=60000, qshards=4,
              rule="simplify FREE / FREE_MAXIMIZE with table-backed cost"),
+    SubCheck("simplify_builtin", body_simplify_builtin, strategy=_simplify_builtin_case, quick=1200, thorough=30000, qshards=4,
+             rule="simplify modes 4/5/6 (built-in bounding-rectangle criteria, tolerance incl. 0) on 3..9-fix tracks; "
+                  "matrix from tracklib's own cost function, optimum by enumeration"),
     SubCheck("stops", body_stops, strategy=_stops_case, quick=1500, thorough=40000, qshards=4,
              rule="findStopsGlobal vs documented reward matrix"),
 ]
